@@ -632,6 +632,9 @@ class Interp:
                 v = ord(v.c)
             if isinstance(v, float):
                 v = int(v)
+            if is_sym(v) and z3.is_real(v):
+                # float -> int: truncation toward zero (saturation at the type bounds is outside the modelled range)
+                v = z3.If(v >= 0, z3.ToInt(v), -z3.ToInt(-v))
             t = ty.strip()
             if t in INT_RANGES:
                 lo, hi = INT_RANGES[t]
